@@ -116,7 +116,7 @@ func guard(what string, f func()) error {
 	select {
 	case <-done:
 		return nil
-	case <-time.After(10 * time.Second):
+	case <-pbt.After(10 * time.Second):
 		return fmt.Errorf("%s did not return within 10s", what)
 	}
 }
